@@ -158,6 +158,21 @@ spec fn added_for(txs: Seq<Transaction>, t: int, n: Network, a: Address) -> Seq<
 {
     if t <= 0 { Seq::empty() } else { added_for(txs, t - 1, n, a) + outs_for(txs[t - 1], txs[t - 1].outs@.len() as int, n, a) }
 }
+// C01/C05/C20: what a block may REMOVE from an address — every outpoint listed is the previous output of a non-null input of the block
+// (how often the inputs of the first n transactions reference o)
+spec fn ins_refs_txs(txs: Seq<Transaction>, n: int, o: OutPoint) -> int
+    decreases n
+{
+    if n <= 0 { 0 } else { ins_refs_txs(txs, n - 1, o) + refs_ins(txs[n - 1].ins@, txs[n - 1].ins@.len() as int, o) }
+}
+spec fn spent_by(txs: Seq<Transaction>, t: int, ins: Seq<TxIn>, k: int, o: OutPoint) -> bool { ins_refs_txs(txs, t, o) + refs_ins(ins, k, o) >= 1 }
+spec fn all_spent(s: Seq<OutPoint>, txs: Seq<Transaction>, t: int, ins: Seq<TxIn>, k: int) -> bool {
+    forall|j: int| 0 <= j < s.len() ==> spent_by(txs, t, ins, k, #[trigger] s[j])
+}
+proof fn lemma_ins_refs_nonneg(txs: Seq<Transaction>, n: int, o: OutPoint)
+    ensures ins_refs_txs(txs, n, o) >= 0,
+    decreases n
+{ if n > 0 { lemma_ins_refs_nonneg(txs, n - 1, o); lemma_refs_ins_nonneg(txs[n - 1].ins@, txs[n - 1].ins@.len() as int, o); } }
 // the list a per-address map holds for a (empty if the address is unknown)
 spec fn lst(m: Map<Address, Vec<OutPoint>>, a: Address) -> Seq<OutPoint> { if m.contains_key(a) { m[a]@ } else { Seq::empty() } }
 // the number of non-coinbase transactions among the first n
@@ -256,6 +271,8 @@ proof fn lemma_bound_out(block: &Block, t: int, n: int, o: OutPoint)
 //@|         // the delta recorded for an address lists exactly the block's outputs that pay it, in block order
 //@|         &&& forall|a: Address| #[trigger] lst(final(cache).added_outpoints@[block.hash]@, a) =~= added_for(block.txs@, block.txs@.len() as int, utxos.network, a)
 //@|         &&& final(cache).removed_outpoints@.dom() =~= old(cache).removed_outpoints@.dom().insert(block.hash)
+//@|         // the delta removed from an address lists only outpoints that a (non-null) input of the block spends
+//@|         &&& forall|a: Address| all_spent(#[trigger] lst(final(cache).removed_outpoints@[block.hash]@, a), block.txs@, block.txs@.len() as int, Seq::<TxIn>::empty(), 0)
 //@|     },
 //@ start
 //@| proof { axiom_opc_keys(); }
@@ -267,6 +284,7 @@ proof fn lemma_bound_out(block: &Block, t: int, n: int, o: OutPoint)
 //@|     forall|o: OutPoint| cnt(old(cache).tx_outs@, o) + #[trigger] refs_block(*block, o) <= u32::MAX,
 //@|     -0x1000_0000 * it.index@ <= utxo_delta <= 0x1000_0000 * it.index@,
 //@|     forall|a: Address| #[trigger] lst(added_outpoints@, a) =~= added_for(block.txs@, it.index@ as int, utxos.network, a),
+//@|     forall|a: Address| all_spent(#[trigger] lst(removed_outpoints@, a), block.txs@, it.index@ as int, Seq::<TxIn>::empty(), 0),
 //@|     // C15: at most one fee rate per NON-coinbase transaction (a coinbase never contributes)
 //@|     fee_rates@.len() <= non_coinbase(block.txs@, it.index@ as int),
 //@|     block.txs@.len() < 0x1000_0000,
@@ -278,12 +296,36 @@ proof fn lemma_bound_out(block: &Block, t: int, n: int, o: OutPoint)
 //@|     opc_keys_ok(), *cache == *old(cache), 0 <= it.index@ < block.txs@.len(), *tx == block.txs@[it.index@ as int],
 //@|     forall|a: Address| #[trigger] lst(added_outpoints@, a) =~= added_for(block.txs@, it.index@ as int, utxos.network, a),
 //@|     forall|o: OutPoint| cnt(tx_outs@, o) == #[trigger] refs_txs(block.txs@, it.index@ as int, o) + refs_ins(tx.ins@, it2.index@ as int, o),
+//@|     forall|a: Address| all_spent(#[trigger] lst(removed_outpoints@, a), block.txs@, it.index@ as int, tx.ins@, it2.index@ as int),
 //@|     forall|o: OutPoint| #[trigger] tx_outs@.contains_key(o) ==> tx_outs@[o].count >= 1,
 //@|     forall|o: OutPoint| cnt(old(cache).tx_outs@, o) + #[trigger] refs_block(*block, o) <= u32::MAX,
+//@ loopstart 2
+//@| proof { assert(*input == tx.ins@[it2.index@ as int]); }
+//@| let ghost vp_rb = removed_outpoints@;
+//@ loopbodyend 2
+//@| proof {
+//@|     assert forall|a: Address| all_spent(#[trigger] lst(removed_outpoints@, a), block.txs@, it.index@ as int, tx.ins@, it2.index@ as int + 1) by {
+//@|         assert(all_spent(lst(vp_rb, a), block.txs@, it.index@ as int, tx.ins@, it2.index@ as int));
+//@|         assert forall|j: int| 0 <= j < lst(removed_outpoints@, a).len() implies spent_by(block.txs@, it.index@ as int, tx.ins@, it2.index@ as int + 1, #[trigger] lst(removed_outpoints@, a)[j]) by {
+//@|             let o = lst(removed_outpoints@, a)[j];
+//@|             lemma_refs_ins_nonneg(tx.ins@, it2.index@ as int + 1, o);
+//@|             lemma_refs_ins_nonneg(tx.ins@, it2.index@ as int, o);
+//@|             lemma_ins_refs_nonneg(block.txs@, it.index@ as int, o);
+//@|             if j < lst(vp_rb, a).len() { assert(lst(vp_rb, a)[j] == o); }
+//@|         }
+//@|     }
+//@| }
+//@ loopend 2
+//@| proof {
+//@|     assert forall|a: Address| all_spent(#[trigger] lst(removed_outpoints@, a), block.txs@, it.index@ as int + 1, Seq::<TxIn>::empty(), 0) by {
+//@|         assert(all_spent(lst(removed_outpoints@, a), block.txs@, it.index@ as int, tx.ins@, tx.ins@.len() as int));
+//@|     }
+//@| }
 //@ loop 3 binder=it3
 //@| invariant
 //@|     opc_keys_ok(), *cache == *old(cache), 0 <= it.index@ < block.txs@.len(), *tx == block.txs@[it.index@ as int],
 //@|     vp_i == it3.index@, tx.outs@.len() < 0x1000_0000,
+//@|     forall|a: Address| all_spent(#[trigger] lst(removed_outpoints@, a), block.txs@, it.index@ as int + 1, Seq::<TxIn>::empty(), 0),
 //@|     forall|a: Address| #[trigger] lst(added_outpoints@, a) =~= added_for(block.txs@, it.index@ as int, utxos.network, a) + outs_for(*tx, it3.index@ as int, utxos.network, a),
 //@|     forall|o: OutPoint| cnt(tx_outs@, o) == #[trigger] refs_txs(block.txs@, it.index@ as int, o) + refs_ins(tx.ins@, tx.ins@.len() as int, o) + refs_outs(*tx, it3.index@ as int, o),
 //@|     forall|o: OutPoint| #[trigger] tx_outs@.contains_key(o) ==> tx_outs@[o].count >= 1,
